@@ -450,6 +450,9 @@ type bodyGen struct {
 	depth int // number of enclosing dynamic blocks
 	maxD  int
 	clean bool // only well-formed for_each and label expressions (the unrolled form exists)
+	// the partially-unknown-for_each stream (partial.go): for_each expressions mostly name
+	// its collections; nil in the general stream
+	partial *partialCfg
 }
 
 func (g *bodyGen) f(s string) { g.feat[s]++ }
@@ -585,6 +588,9 @@ func (g *bodyGen) forEach(scope []iterScope) feChoice {
 			}
 			return feChoice{"«" + s.Name + "».value.v", eStr, false, "outer"}
 		}
+	}
+	if g.partial != nil && r.Chance(0.85) {
+		return g.partial.choose(g)
 	}
 	x := r.Intn(100)
 	if g.clean {
